@@ -525,14 +525,16 @@ def check_exec(run: ERun, ref) -> str | None:
     for r, o in enumerate(run.outcomes):
         if o.status == "timeout":
             raise fakempi.FakeMPITimeout(f"rank {r} timed out")
+    for r, o in enumerate(run.outcomes):       # a crashed rank first: peers deadlock as a consequence
+        if o.status == "raised":
+            return f"raised:rank{r}:{type(o.exc).__name__}:{str(o.exc)[:80]}"
+    for r, o in enumerate(run.outcomes):
+        if o.status == "spin":
+            return f"spin:rank{r}"
     if run.deadlock:
         stuck = [r for r, o in enumerate(run.outcomes) if o.status == "deadlock"]
         return f"deadlock:ranks{stuck}"
     for r, o in enumerate(run.outcomes):
-        if o.status == "spin":
-            return f"spin:rank{r}"
-        if o.status == "raised":
-            return f"raised:rank{r}:{type(o.exc).__name__}:{str(o.exc)[:80]}"
         if o.status != "ok":
             return f"{o.status}:rank{r}"
     if run.anomalies:
